@@ -19,6 +19,7 @@ mod c12;
 mod c13;
 mod c14;
 mod c15;
+mod c17;
 mod c18;
 mod alloc;
 
@@ -62,6 +63,7 @@ fn main() {
     "C13" => c13::run(&ctx),
     "C14" => c14::run(&ctx),
     "C15" => c15::run(&ctx),
+    "C17" => c17::run(&ctx),
     "C18" => c18::run(&ctx),
     _ => {
       eprintln!("unknown property {}", prop);
